@@ -495,3 +495,62 @@ pub fn order_replay(args: &Args, s: &mut Summary) {
         s.sample(json!({"text": text, "cp": c["cp"]}));
     });
 }
+
+/// TimingLines!Shape evaluated on real output far outside the model's time alphabet: fractional times,
+/// signed zeros, sub-EPSILON neighbours, exponents.  Every list must be strictly increasing under the
+/// numeric order and respect the clamps.
+pub fn shape_relation(args: &Args, s: &mut Summary) {
+    let runs = args.opt_usize("runs", 200);
+    let mut rng = Rng::new(args.seed);
+    let times = ["0", "-0", "0.0", "-0.0", "1e-17", "-1e-17", "10", "10.0", "1e1", "9.999999999999999", "-5", "-5.5", "20", "1e3", "0.5", "2147483647", "-2147483647"];
+    for run in 0..runs {
+        let mode = rng.below(4);
+        let mut text = format!("osu file format v14\n\n[General]\nMode: {mode}\n\n[TimingPoints]\n");
+        for _ in 0..(2 + rng.below(25)) {
+            let unin = rng.chance(1, 2);
+            let bl = if unin { *rng.pick(&["500", "0.001", "1e9", "250.5"]) } else { *rng.pick(&["-100", "-0.001", "-1e9", "-33.3", "NaN", "-50"]) };
+            text.push_str(&format!("{},{},{},{},{},{},{},{}\n", rng.pick(&times), bl, rng.pick(&["4", "3"]), rng.pick(&["1", "2", "0"]), rng.pick(&["0", "2"]),
+                                   rng.pick(&["100", "50", "200", "-3"]), if unin { 1 } else { 0 }, rng.pick(&["0", "1", "8"])));
+        }
+        let r = guarded(&format!("shape {text:?}"), || rosu_map::from_str::<TimingPoints>(&text));
+        s.cases += 1;
+        s.checks += 1;
+        match r {
+            Err(p) => s.mismatch("panic", json!({"text": text, "panic": p})),
+            Ok(Err(_)) => s.mismatch("io-error", json!({"text": text})),
+            Ok(Ok(tp)) => {
+                let cp = &tp.control_points;
+                let inc = |v: Vec<f64>| v.windows(2).all(|w| w[0] < w[1]);
+                let mut bad: Vec<&str> = vec![];
+                if !inc(cp.timing_points.iter().map(|p| p.time).collect()) {
+                    bad.push("timing");
+                }
+                if !inc(cp.difficulty_points.iter().map(|p| p.time).collect()) {
+                    bad.push("difficulty");
+                }
+                if !inc(cp.effect_points.iter().map(|p| p.time).collect()) {
+                    bad.push("effect");
+                }
+                if !inc(cp.sample_points.iter().map(|p| p.time).collect()) {
+                    bad.push("sample");
+                }
+                if !bad.is_empty() {
+                    let signed_zero = text.contains("\n-0,") || text.contains("\n-0.0,");
+                    s.mismatch(if signed_zero { "not-strictly-increasing:signed-zero" } else { "not-strictly-increasing" }, json!({"lists": bad, "text": text}));
+                }
+                let scrolling = mode == 1 || mode == 3;
+                let clamps = cp.timing_points.iter().all(|p| (6.0..=60000.0).contains(&p.beat_len))
+                    && cp.difficulty_points.iter().all(|p| (0.1..=10.0).contains(&p.slider_velocity) && (p.generate_ticks || p.slider_velocity == 1.0))
+                    && cp.effect_points.iter().all(|p| (0.01..=10.0).contains(&p.scroll_speed) && (scrolling || p.scroll_speed == 1.0))
+                    && cp.sample_points.iter().all(|p| (0..=100).contains(&p.sample_volume));
+                if !clamps {
+                    s.mismatch("clamp-violated", json!({"text": text}));
+                }
+                if !cp.timing_points.is_empty() {
+                    s.nontrivial_key(&format!("run{run}"));
+                }
+            }
+        }
+    }
+    s.sample(json!({"runs": runs, "times": times}));
+}
